@@ -1115,8 +1115,10 @@ def g_ctor(rng, n):
                 indptr = indptr[:-1]
             elif q < 0.22:
                 data = data + [1]
-            elif q < 0.32 and indices:
-                indices[0] = cols + 2
+            elif q < 0.29 and indices:
+                indices[int(rng.integers(len(indices)))] = int(rng.choice([cols, cols + 2, -1]))      # a column outside the shape
+            elif q < 0.32 and rows >= 2:
+                indptr[int(rng.integers(1, rows))] = len(indices) + 1                                 # index pointers decreasing
             elif q < 0.40:
                 ca = [[0, 1], [2], [-1], [1, 0], []][int(rng.integers(5))]
             elif q < 0.46:
